@@ -82,6 +82,62 @@ func ruleCodecSym(c *RC) *RuleResult {
 	if len(cts) < 10 {
 		r.unresolved(fmt.Sprintf("types with EncodeBinary/DecodeBinary (found %d)", len(cts)))
 	}
+	// the wire does not narrow: wherever an encoder copies a receiver field into the auxiliary (wire) struct, the wire
+	// field is at least as wide as the field — a 16-bit validator index squeezed into a byte still round-trips for every
+	// index the tests use, and two payloads that differ only above bit 7 get one hash
+	for _, ct := range cts {
+		if ct.enc == nil {
+			continue
+		}
+		info := ct.enc.Pkg.TypesInfo
+		sizes := types.SizesFor("gc", "amd64")
+		ast.Inspect(ct.enc.Decl.Body, func(n ast.Node) bool {
+			kv, ok := n.(*ast.KeyValueExpr)
+			if !ok {
+				return true
+			}
+			key, ok := kv.Key.(*ast.Ident)
+			if !ok {
+				return true
+			}
+			wf, ok := info.Uses[key].(*types.Var)
+			if !ok || !wf.IsField() {
+				return true
+			}
+			v := ast.Unparen(kv.Value)
+			for {
+				call, ok := v.(*ast.CallExpr)
+				if !ok || len(call.Args) != 1 {
+					break
+				}
+				if tv, ok := info.Types[call.Fun]; !ok || !tv.IsType() {
+					break
+				}
+				v = ast.Unparen(call.Args[0])
+			}
+			sel, ok := v.(*ast.SelectorExpr)
+			if !ok {
+				return true
+			}
+			sl := info.Selections[sel]
+			if sl == nil || sl.Kind() != types.FieldVal {
+				return true
+			}
+			src := sl.Obj().Type()
+			sb, ok1 := src.Underlying().(*types.Basic)
+			wb, ok2 := wf.Type().Underlying().(*types.Basic)
+			if !ok1 || !ok2 || sb.Info()&types.IsInteger == 0 || wb.Info()&types.IsInteger == 0 {
+				return true
+			}
+			r.Sites++
+			if sizes.Sizeof(wf.Type()) >= sizes.Sizeof(src) {
+				r.ok(fmt.Sprintf("%s: wire field %s (%s) holds %s (%s) without narrowing", ct.name, wf.Name(), wf.Type(), sel.Sel.Name, src))
+			} else {
+				r.fail(ct.name+"."+sel.Sel.Name+"/narrowed-on-wire", c.Prog.Pos(kv), fmt.Sprintf("%s.%s (%s) is written to the wire field %s (%s): values above the narrower range neither round-trip nor enter the hash", ct.name, sel.Sel.Name, src, wf.Name(), wf.Type()))
+			}
+			return true
+		})
+	}
 	for _, ct := range cts {
 		// struct-valued gob types (encode the whole receiver) are covered by A-GOB-EXPORTED
 		whole := false
